@@ -252,6 +252,13 @@ func (c *Ctx) classifyBufferStore(info *types.Info, fd *ast.FuncDecl, as *ast.As
 					}
 				}
 			}
+			// k = copy(_, buffer): the copy's own result is the number of bytes
+			// handed out, so buffer[k:] drops exactly those
+			if ca, ok := s.(*ast.AssignStmt); ok && !whole && k != nil && len(ca.Lhs) == 1 && len(ca.Rhs) == 1 && c.sameExpr(ca.Lhs[0], k) {
+				if cp, ok := isBuiltinCall(info, ca.Rhs[0], "copy"); ok && len(cp.Args) == 2 && isBufferPrefix(info, cp.Args[1]) {
+					return true
+				}
+			}
 		}
 		return false
 	}
@@ -266,11 +273,31 @@ func (c *Ctx) classifyBufferStore(info *types.Info, fd *ast.FuncDecl, as *ast.As
 	}
 	if se, ok := rhs.(*ast.SliceExpr); ok && isField(info, se.X, stdinT, "buffer") && se.High == nil && se.Low != nil && se.Max == nil {
 		if copied(false, se.Low) {
-			return "front-reslice", "buffer = buffer[" + c.src(se.Low) + ":] after copy(_, buffer[:" + c.src(se.Low) + "])"
+			return "front-reslice", "buffer = buffer[" + c.src(se.Low) + ":] after copy(_, buffer[:" + c.src(se.Low) + "]) / " + c.src(se.Low) + " = copy(_, buffer)"
 		}
 		return "other", "front re-slice by " + c.src(se.Low) + " without copy(_, buffer[:" + c.src(se.Low) + "]) before it in the same block: " + c.src(as)
 	}
 	return "other", "unrecognised store form: " + c.src(as)
+}
+
+// isBufferPrefix: e is <x>.buffer or a prefix <x>.buffer[:h] / <x>.buffer[0:h]
+// of it — copy() out of such a source hands out the first bytes of the FIFO and
+// returns how many.
+func isBufferPrefix(info *types.Info, e ast.Expr) bool {
+	e = unparen(e)
+	if isField(info, e, stdinT, "buffer") {
+		return true
+	}
+	se, ok := e.(*ast.SliceExpr)
+	if !ok || !isField(info, se.X, stdinT, "buffer") || se.Max != nil {
+		return false
+	}
+	if se.Low != nil {
+		if v, isC := constInt(info, se.Low); !isC || v != 0 {
+			return false
+		}
+	}
+	return true
 }
 
 func isParam(info *types.Info, fd *ast.FuncDecl, id *ast.Ident) bool {
@@ -323,6 +350,11 @@ func (c *Ctx) isClosedTest(info *types.Info, defs defMap, e ast.Expr, truth bool
 func (c *Ctx) isBufEmptyTest(info *types.Info, defs defMap, e ast.Expr, truth bool) bool {
 	x, op, k, ok := cmpNorm(info, e)
 	if !ok {
+		// boolean local defined as such a comparison (empty := len(buffer) == 0)
+		r := defs.resolve1(info, e)
+		if r != unparen(e) {
+			return c.isBufEmptyTest(info, defs, r, truth)
+		}
 		return false
 	}
 	x = defs.resolve1(info, x)
@@ -483,8 +515,14 @@ func (c *Ctx) checkWriteCounts(info *types.Info, fd *ast.FuncDecl) {
 		c.Undecided("R01d", "Write:param", fd.Pos(), "Write has no single named parameter")
 		return
 	}
+	wdefs := localDefs(info, fd.Body)
+	pStable := len(wdefs[p]) == 0 // the parameter is never reassigned, so a local `n := len(p)` keeps meaning len(p)
 	isLenP := func(e ast.Expr) bool {
-		call, ok := isBuiltinCall(info, stripConv(info, e), "len")
+		e = stripConv(info, e)
+		if pStable {
+			e = stripConv(info, wdefs.resolve1(info, e))
+		}
+		call, ok := isBuiltinCall(info, e, "len")
 		if !ok || len(call.Args) != 1 {
 			return false
 		}
@@ -665,13 +703,7 @@ func (c *Ctx) checkReadCounts(info *types.Info, fd *ast.FuncDecl) {
 			return true
 		}
 		// enclosing list and index
-		var list []ast.Stmt
-		for i := len(stack) - 1; i >= 0; i-- {
-			if b, ok := stack[i].(*ast.BlockStmt); ok {
-				list = b.List
-				break
-			}
-		}
+		list := enclosingStmtList(stack)
 		idx := topLevelIndex(list, cp)
 		// value of i before the copy in this block (or i = copy(...) itself)
 		var iDef ast.Expr
@@ -725,9 +757,12 @@ func (c *Ctx) checkReadCounts(info *types.Info, fd *ast.FuncDecl) {
 		switch {
 		case iFromCopy:
 			// i = copy(p, buffer) ; buffer = buffer[i:]
+			// copy() returns the number of bytes it handed out, from the front of
+			// its source (the buffer or a prefix of it): advancing by exactly that
+			// value is consistent whatever the sizes are
 			se, ok := store.(*ast.SliceExpr)
-			if whole && ok && se.High == nil && se.Low != nil && isI(se.Low) {
-				c.OK("R01d", key, cp.Pos(), "i = copy(p, buffer); buffer = buffer[i:] — one value is copy length and offset")
+			if ok && isField(info, se.X, stdinT, "buffer") && se.High == nil && se.Max == nil && se.Low != nil && isI(se.Low) {
+				c.OK("R01d", key, cp.Pos(), "i = copy(p, buffer[:…]); buffer = buffer[i:] — one value is copy length and offset")
 			} else {
 				c.Viol("R01d", key, cp.Pos(), "i = copy(...) but the buffer is not advanced by exactly i (store: %s)", c.src(store))
 			}
@@ -803,6 +838,29 @@ func (c *Ctx) checkReadCounts(info *types.Info, fd *ast.FuncDecl) {
 		}
 	}
 	c.Check(nAssignI == 0, "R01d", "Read:i-stable", fd.Pos(), "i is assigned only inside the copy arms (top-level reassignments: %d)", nAssignI)
+}
+
+// enclosingStmtList: the innermost statement list (block, case or select arm)
+// that holds the node at the top of stack.
+func enclosingStmtList(stack []ast.Node) []ast.Stmt {
+	for i := len(stack) - 2; i >= 0; i-- {
+		switch b := stack[i].(type) {
+		case *ast.BlockStmt:
+			// the body block of a switch/select holds clauses, not statements
+			if len(b.List) > 0 {
+				switch b.List[0].(type) {
+				case *ast.CaseClause, *ast.CommClause:
+					continue
+				}
+			}
+			return b.List
+		case *ast.CaseClause:
+			return b.Body
+		case *ast.CommClause:
+			return b.Body
+		}
+	}
+	return nil
 }
 
 func isTopLevel(list []ast.Stmt, s ast.Stmt) bool {
@@ -906,15 +964,19 @@ func (c *Ctx) checkBackPressure(info *types.Info, fd *ast.FuncDecl) {
 		return
 	}
 	// the exit: `if cond { break }` at the loop body's top level, or loop.Cond
+	// Several `if c { break }` at the loop body's top level are alternatives:
+	// the loop is left when any of them holds (a || b split into two ifs).
 	var cond ast.Expr
+	var conds []ast.Expr
 	negate := false
 	if loop.Cond != nil {
 		cond, negate = loop.Cond, true
 	}
 	for _, s := range loop.Body.List {
-		if is, ok := s.(*ast.IfStmt); ok && is.Else == nil && len(is.Body.List) == 1 {
-			if br, ok := is.Body.List[0].(*ast.BranchStmt); ok && br.Tok == token.BREAK {
+		if is, ok := s.(*ast.IfStmt); ok && is.Else == nil && is.Init == nil && len(is.Body.List) == 1 {
+			if br, ok := is.Body.List[0].(*ast.BranchStmt); ok && br.Tok == token.BREAK && br.Label == nil {
 				cond, negate = is.Cond, false
+				conds = append(conds, is.Cond)
 			}
 		}
 	}
@@ -959,6 +1021,11 @@ func (c *Ctx) checkBackPressure(info *types.Info, fd *ast.FuncDecl) {
 	var evalB func(e ast.Expr, l, m int64) bool
 	evalB = func(e ast.Expr, l, m int64) bool {
 		e = unparen(e)
+		if id, isId := e.(*ast.Ident); isId { // boolean local defined once: room := len(buffer) < max || max == 0
+			if r := defs.resolve1(info, id); r != ast.Expr(id) {
+				return evalB(r, l, m)
+			}
+		}
 		switch x := e.(type) {
 		case *ast.UnaryExpr:
 			if x.Op == token.NOT {
@@ -988,6 +1055,11 @@ func (c *Ctx) checkBackPressure(info *types.Info, fd *ast.FuncDecl) {
 				exit := evalB(cond, l, m)
 				if negate {
 					exit = !exit
+				}
+				for _, oc := range conds {
+					if !negate && evalB(oc, l, m) {
+						exit = true
+					}
 				}
 				must := l < m || m == 0
 				if must && !exit {
@@ -1058,50 +1130,164 @@ func (c *Ctx) checkWriteTo(info *types.Info, fd *ast.FuncDecl) {
 		c.Viol("R01f", "WriteTo:read-then-write", loop.Pos(), "loop body does not consist of Read followed by an unconditional Write at its top level (read@%d write@%d)", readIdx, writeIdx)
 		return
 	}
-	// between: only `if <cond over err> { return }`
-	ok := true
-	eofNil := false
-	for _, s := range list[readIdx+1 : writeIdx] {
-		is, isIf := s.(*ast.IfStmt)
-		if !isIf || is.Else != nil || !terminates(info, is.Body.List) {
-			ok = false
-			continue
-		}
-		onlyErr := true
-		ast.Inspect(is.Cond, func(n ast.Node) bool {
+	// Between Read and the (unconditional, top-level) Write: every statement that
+	// leaves the straight path — return, break out of the loop, goto, panic — is
+	// examined with the conditions it stands under (if / else-if / tagless switch
+	// arms, earlier `if c { return }` exits; nested or flat). Those conditions may
+	// speak about err only (the loop is left on error/EOF, never because of the
+	// data), `continue` is never allowed, and the count/buffer/err of the Read are
+	// not overwritten before the Write.
+	lo, hi := list[readIdx].End(), list[writeIdx].Pos()
+	onlyErr := func(e ast.Expr) bool {
+		res := true
+		ast.Inspect(e, func(n ast.Node) bool {
 			if id, isId := n.(*ast.Ident); isId {
 				o := info.ObjectOf(id)
 				if o != errObj && !(o != nil && o.Pkg() != nil && o.Pkg().Path() == "io") && id.Name != "nil" {
 					if _, isPkg := o.(*types.PkgName); !isPkg {
-						onlyErr = false
+						res = false
 					}
 				}
 			}
 			return true
 		})
-		if !onlyErr {
-			ok = false
+		return res
+	}
+	isErrVsEOF := func(f Fact) (eq bool, ok bool) { // fact says err == io.EOF (eq) or err != io.EOF (!eq)
+		b, isB := unparen(f.E).(*ast.BinaryExpr)
+		if !isB || (b.Op != token.EQL && b.Op != token.NEQ) {
+			return false, false
 		}
-		// err == io.EOF → return _, nil
-		if b, isB := unparen(is.Cond).(*ast.BinaryExpr); isB && b.Op == token.EQL && (isPkgObj(info, b.Y, "io", "EOF") || isPkgObj(info, b.X, "io", "EOF")) {
-			if rs, isR := is.Body.List[len(is.Body.List)-1].(*ast.ReturnStmt); isR && len(rs.Results) == 2 {
-				if id, isId := unparen(rs.Results[1]).(*ast.Ident); isId && id.Name == "nil" {
+		x, y := unparen(b.X), unparen(b.Y)
+		if isPkgObj(info, x, "io", "EOF") {
+			x, y = y, x
+		}
+		id, isId := x.(*ast.Ident)
+		if !isId || info.ObjectOf(id) != errObj || !isPkgObj(info, y, "io", "EOF") {
+			return false, false
+		}
+		return (b.Op == token.EQL) == f.True, true
+	}
+	isErrVsNil := func(f Fact) (isNil bool, ok bool) { // fact says err == nil (isNil) or err != nil
+		b, isB := unparen(f.E).(*ast.BinaryExpr)
+		if !isB || (b.Op != token.EQL && b.Op != token.NEQ) {
+			return false, false
+		}
+		x, y := unparen(b.X), unparen(b.Y)
+		if id, isId := x.(*ast.Ident); isId && id.Name == "nil" {
+			x, y = y, x
+		}
+		id, isId := x.(*ast.Ident)
+		nl, isNl := y.(*ast.Ident)
+		if !isId || !isNl || nl.Name != "nil" || info.ObjectOf(id) != errObj {
+			return false, false
+		}
+		return (b.Op == token.EQL) == f.True, true
+	}
+	ok := true
+	eofNil := false
+	walkStack(loop.Body, func(n ast.Node, st []ast.Node) bool {
+		if _, isLit := n.(*ast.FuncLit); isLit {
+			return false
+		}
+		if n.Pos() < lo || n.End() > hi {
+			return true
+		}
+		isExit := false
+		switch x := n.(type) {
+		case *ast.ReturnStmt:
+			isExit = true
+		case *ast.BranchStmt:
+			switch x.Tok {
+			case token.CONTINUE:
+				c.Viol("R01f", "WriteTo:continue", x.Pos(), "`continue` between Read and Write drops the bytes just read")
+			case token.GOTO:
+				isExit = true
+			case token.BREAK:
+				isExit = true
+				if x.Label == nil {
+					for _, a := range st[:len(st)-1] {
+						switch a.(type) {
+						case *ast.SwitchStmt, *ast.TypeSwitchStmt, *ast.SelectStmt, *ast.ForStmt, *ast.RangeStmt:
+							if a.Pos() >= lo {
+								isExit = false // leaves an inner statement only
+							}
+						}
+					}
+				}
+			}
+		case *ast.ExprStmt:
+			if call, isC := x.X.(*ast.CallExpr); isC {
+				if id, isId := call.Fun.(*ast.Ident); isId && id.Name == "panic" {
+					isExit = true
+				}
+				for _, a := range call.Args { // a call that is handed the buffer may change it
+					if mentions(info, a, bufObj) {
+						ok = false
+					}
+				}
+			}
+		case *ast.AssignStmt:
+			for _, l := range x.Lhs {
+				if id, isId := unparen(l).(*ast.Ident); isId {
+					if o := info.ObjectOf(id); o != nil && (o == bufObj || o == iObj || o == errObj) {
+						ok = false
+					}
+				}
+			}
+		case *ast.IncDecStmt:
+			if id, isId := unparen(x.X).(*ast.Ident); isId && info.ObjectOf(id) == iObj {
+				ok = false
+			}
+		case *ast.ForStmt, *ast.RangeStmt, *ast.GoStmt, *ast.DeferStmt, *ast.LabeledStmt:
+			ok = false // not a recognised shape between Read and Write
+		}
+		if !isExit {
+			return true
+		}
+		var gs []Guard
+		for _, g := range guardsAt(info, st) {
+			if g.Cond == nil {
+				ok = false // tagged switch: not a recognised error test
+				continue
+			}
+			if g.Cond.Pos() >= lo {
+				gs = append(gs, g)
+			}
+		}
+		if len(gs) == 0 {
+			ok = false // unconditional exit: nothing is ever forwarded
+		}
+		for _, g := range gs {
+			if !onlyErr(g.Cond) {
+				ok = false
+			}
+		}
+		// err == io.EOF → return _, nil (and not contradicted by err == nil / err != io.EOF)
+		if rs, isR := n.(*ast.ReturnStmt); isR && len(rs.Results) == 2 {
+			if id, isId := unparen(rs.Results[1]).(*ast.Ident); isId && id.Name == "nil" {
+				isEOF, contra := false, false
+				for _, f := range factsOf(gs) {
+					if eq, is := isErrVsEOF(f); is {
+						if eq {
+							isEOF = true
+						} else {
+							contra = true
+						}
+					}
+					if isNil, is := isErrVsNil(f); is && isNil {
+						contra = true
+					}
+				}
+				if isEOF && !contra {
 					eofNil = true
 				}
 			}
 		}
-	}
+		return true
+	})
 	c.Check(ok, "R01f", "WriteTo:no-skip", list[readIdx].Pos(), "between Read and Write only error exits (conditions over err) — no path skips forwarding a successful read")
 	c.Check(eofNil, "R01f", "WriteTo:eof-nil", list[readIdx].Pos(), "io.EOF ends the copy with a nil error")
-	// no second Read before Write and no `continue` between
-	for _, s := range list[readIdx+1 : writeIdx] {
-		ast.Inspect(s, func(n ast.Node) bool {
-			if br, isBr := n.(*ast.BranchStmt); isBr && br.Tok == token.CONTINUE {
-				c.Viol("R01f", "WriteTo:continue", br.Pos(), "`continue` between Read and Write drops the bytes just read")
-			}
-			return true
-		})
-	}
 }
 
 func (c *Ctx) checkDependents(info *types.Info, files []*ast.File) {
@@ -1167,8 +1353,10 @@ func (c *Ctx) checkTeeDup(info *types.Info, fd *ast.FuncDecl, name string) {
 	}
 	rv := recvVar(fd)
 	sec, prim := false, false
+	var primRes []types.Object // results of `x, y := <recv>.primary.<name>(p)`
 	for _, s := range fd.Body.List {
 		var call *ast.CallExpr
+		var asg *ast.AssignStmt
 		isRet := false
 		switch x := s.(type) {
 		case *ast.ExprStmt:
@@ -1181,6 +1369,20 @@ func (c *Ctx) checkTeeDup(info *types.Info, fd *ast.FuncDecl, name string) {
 		case *ast.AssignStmt:
 			if len(x.Rhs) == 1 {
 				call, _ = x.Rhs[0].(*ast.CallExpr)
+				asg = x
+			}
+		}
+		// `n, err := tee.primary.Write(p); return n, err` — the primary's results returned unchanged
+		if rs, isR := s.(*ast.ReturnStmt); isR && primRes != nil && len(rs.Results) == len(primRes) {
+			same := true
+			for k, r := range rs.Results {
+				id, isId := unparen(r).(*ast.Ident)
+				if !isId || info.ObjectOf(id) != primRes[k] {
+					same = false
+				}
+			}
+			if same {
+				prim = true
 			}
 		}
 		if call == nil || len(call.Args) != 1 {
@@ -1200,6 +1402,16 @@ func (c *Ctx) checkTeeDup(info *types.Info, fd *ast.FuncDecl, name string) {
 		case rv + ".primary":
 			if isRet {
 				prim = true
+			} else if asg != nil && len(asg.Lhs) == 2 {
+				primRes = nil
+				for _, l := range asg.Lhs {
+					if id, isId := l.(*ast.Ident); isId && id.Name != "_" {
+						primRes = append(primRes, info.ObjectOf(id))
+					} else {
+						primRes = nil
+						break
+					}
+				}
 			}
 		}
 	}
